@@ -142,6 +142,7 @@ func VP_C02_twice() {
 		tun := &protocol.Tunnel{User: id}
 		// the same token both times: keep the ghost description, reset only per-call logs
 		vpParseCalls, vpSigAlgs, vpTokAlgs, vpClaimsKeyLog = 0, nil, nil, nil
+		vpPresentation = i
 		oks[i], _ = CheckPAACookie(vpCtxWith(tun, id), "the-cookie")
 	}
 	vpObserveBool("ok1", oks[0])
